@@ -1198,8 +1198,10 @@ void EGLPNUM_TYPENAME_ILLprice_primal (
 	EGLPNUM_TYPENAME_EGlpNumZero(d_max);
 
 #if USEHEAP > 0
-	EGLPNUM_TYPENAME_ILLprice_test_for_heap (lp, pinf, lp->nnbasic, pinf->d_scaleinf,
-													PRIMAL_SIMPLEX, 1);
+	/* the heap (and its key array d_scaleinf) only exists for complete pricing */
+	if (pinf->p_strategy == COMPLETE_PRICING)
+		EGLPNUM_TYPENAME_ILLprice_test_for_heap (lp, pinf, lp->nnbasic, pinf->d_scaleinf,
+														PRIMAL_SIMPLEX, 1);
 #endif
 
 	if (pinf->p_strategy == COMPLETE_PRICING)
@@ -1389,8 +1391,10 @@ void EGLPNUM_TYPENAME_ILLprice_dual (
 	EGLPNUM_TYPENAME_EGlpNumZero(p_max);
 
 #if USEHEAP > 0
-	EGLPNUM_TYPENAME_ILLprice_test_for_heap (lp, pinf, lp->nrows, pinf->p_scaleinf, DUAL_SIMPLEX,
-													1);
+	/* the heap (and its key array p_scaleinf) only exists for complete pricing */
+	if (pinf->d_strategy == COMPLETE_PRICING)
+		EGLPNUM_TYPENAME_ILLprice_test_for_heap (lp, pinf, lp->nrows, pinf->p_scaleinf, DUAL_SIMPLEX,
+														1);
 #endif
 
 	if (pinf->d_strategy == COMPLETE_PRICING)
